@@ -32,3 +32,9 @@ Definition f_run (L : list (N * str)) (o : fopts) (numpad : bool) (h : list feve
   fold_left (fun acc e => let '(s, outs) := acc in
                           let '(s', out) := f_step L o numpad s e in (s', outs ++ [out]))
             h (f_init, []).
+
+(** Same run, observing after every event the returned text and the session flag. *)
+Definition f_run_obs (L : list (N * str)) (o : fopts) (numpad : bool) (h : list fevent) : list (str * bool) :=
+  snd (fold_left (fun acc e => let '(s, outs) := acc in
+                               let '(s', out) := f_step L o numpad s e in (s', outs ++ [(out, f_ongoing s')]))
+                 h (f_init, [])).
